@@ -25,7 +25,7 @@ XML_KINDS = ["unbalanced", "huge-attr", "wrong-ns", "entity", "deep", "bad-utf8"
 DICTS = {
     "rtf": [b"\\'", b"\\'zz", b"\\'4", b"\\'\n", b"\\u", b"\\u-1?", b"\\u65536 ", b"\\u-32768\\u-9156?", b"\\uc0 ", b"\\uc9999 ", b"\\bin5 ", b"\\bin99999999 ", b"{", b"}", b"{\\*\\", b"\\pict ", b"\\par ",
             b"\\cell ", b"\\row ", b"\\trowd ", b"\\page ", b"\\ansicpg65001 ", b"\\ansicpg0 ", b"\\ansicpg99999 ", b"{\\fonttbl", b"{\\info", b"\\", b"\\\n", b"\\~", b"\x00", b"{\\object\\objdata ", b"\\deleted ",
-            b"\\fcharset128 ", b"\\f99999 ", b"\\-", b"\\sect ", b"\\footnote ", b"{\\field{\\*\\fldinst HYPERLINK \"x\"}{\\fldrslt y}}", b"\\upr", b"\\ud"],
+            b"\\u-9156?", b"\\u-10179?", b"\\u-10179?\\u-8704?", b"\\u55357?", b"\\u56836?", b"\\fcharset128 ", b"\\f99999 ", b"\\-", b"\\sect ", b"\\footnote ", b"{\\field{\\*\\fldinst HYPERLINK \"x\"}{\\fldrslt y}}", b"\\upr", b"\\ud"],
     "html": [b"<", b">", b"<!--", b"-->", b"<![CDATA[", b"]]>", b"<script>", b"</script>", b"<style>", b"<table>", b"</table>", b"<tr>", b"<td colspan=99999999>", b"<td rowspan=-1>", b"&#x110000;", b"&#99999999999;",
              b"&bogus;", b"&#xD800;", b"<meta charset=bogus>", b"<meta charset=utf-16>", b"<meta http-equiv=Content-Type content='text/html; charset=x-user-defined'>", b"\x00", b"<br", b"<a href=", b"</", b"<svg>",
              b"<?xml version='1.0' encoding='bogus'?>", b"<!DOCTYPE", b"<li>", b"<ol start=x>", b"<h7>", b"<img src=data:image/png;base64,AAAA>", b"<title>", b"<base href=", b"\xff\xfe", b"<p/>"],
